@@ -212,9 +212,8 @@ func drainConn(conn *net.UDPConn) [][]byte {
 	var out [][]byte
 	buf := make([]byte, 65536)
 	for {
-		conn.SetReadDeadline(time.Now().Add(300 * time.Microsecond))
-		n, _, err := conn.ReadFromUDP(buf)
-		if err != nil {
+		n, ok := recvNow(conn, buf)
+		if !ok {
 			return out
 		}
 		out = append(out, append([]byte(nil), buf[:n]...))
